@@ -295,9 +295,23 @@ def masked_reduction(ctx: Ctx):
             and (kw(w[2], "func") or w[2][2][0]) == uf_param
             and (kw(w[2], "variables") or (w[2][2][1] if len(w[2][2]) > 1 else None)) == cc_param
         )
-        ctx.ob(f"ALG2:{tag}:product-over-continuous-choices", okw if okw else None, where,
-               "u_and_f is mapped over the product of all continuous choice grids" if okw else
-               "wrapping of u_and_f over the continuous choices not recognised", lhs=w)
+        verdict, why = (True, "u_and_f is mapped over the product of all continuous choice grids") if okw else \
+            (None, "wrapping of u_and_f over the continuous choices not recognised")
+        if not okw:
+            # the ORDER of the mapped names defines the axes of the arg-max: it must be the caller's list.  A list that
+            # iterates something else (a signature, a set, sorted names) and only filters by membership in the caller's
+            # list takes its order from that other source.
+            for pm in (s_ for s_ in walk(w) if s_[0] == "call" and callee_name(s_) == "lcm.dispatchers.productmap"):
+                v = kw(pm, "variables") or (pm[2][1] if len(pm[2]) > 1 else None)
+                if v is None or v == cc_param:
+                    continue
+                if v[0] == "comp" and len(v[3]) == 1 and v[3][0][1] != cc_param and not any(x == cc_param for x in walk(v[3][0][1])) \
+                        and any(x == cc_param for c in v[3][0][2] for x in walk(c)):
+                    verdict, why = False, (f"the mapped names are iterated from {show(v[3][0][1])[:60]} and only filtered by the caller's "
+                                           "list: the axis order of the arg-max is not the caller's order")
+                elif callee_name(v) in ("builtins.sorted", "builtins.set", "builtins.reversed") and any(x == cc_param for x in walk(v)):
+                    verdict, why = False, f"the mapped names are {callee_name(v).split('.')[-1]}(...) of the caller's list: another axis order"
+        ctx.ob(f"ALG2:{tag}:product-over-continuous-choices", verdict, where, why, lhs=w)
         n = norm(r)
         if tag == "value":
             want = ("op", "max", tuple(sorted({"a": norm(u), "where": norm(f), "initial": NEG_INF}.items())), (), ())
